@@ -353,7 +353,7 @@ def templates():
                 if tsize == 2 and op in ('reshape', 'squeeze', 'repeat'):
                     continue
                 add('derived-%s-%s-t%d' % (src, op, tsize), 'derived_operand', cost=0.4, src=src, op=op, tsize=tsize)
-    for how in ('to_json', 'to_json-indent', 'to_jsondict', 'roundtrip', 'repr', 'str-summary', 'to_dataset', 'to_list', 'copy', 'in-dataset-to_dict'):
+    for how in ('to_json', 'to_json-indent', 'to_jsondict', 'roundtrip', 'repr', 'str-summary', 'to_list', 'copy', 'in-dataset-to_dict'):
         for shape in ([2], [2, 2]):
             add('serialise-%s-%s' % (how, 'x'.join(map(str, shape))), 'serialise', cost=0.3, how=how, shape=shape)
     for ctor in ('setitem', 'ctor', 'kwargs'):
